@@ -1,7 +1,7 @@
 (* The two instances of NumOps: Q (executed by vm_compute in the correspondence cases; pi is a 40-digit rational
    approximation, so Q results are within 1e-38 relative of the real-number model) and R (theorems). *)
 From Coq Require Import ZArith QArith Qround Qabs Reals.
-From SpdVerif Require Import Base.NumOps Base.Rx.
+From SpdVerif Require Import Base.CfgNumOps Base.Rx.
 
 (* ---- Q *)
 Definition Qround_half_away (x : Q) : Q :=
